@@ -194,6 +194,14 @@ def programs():
     wb2 = wfgen.clone(P['depth2'][0])
     wb2['workbook'] = 'wb'
     P['workbook_depth2'] = (wb2, {'wf': 'wb.wf', 'workbook': True})
+    # name shapes: the workbook's name contains the caller's own short name
+    # (members are resolved relative to "<workbook>." cut off the caller's
+    # full name), with and without a standalone namesake of the child
+    for wbname in ('wf_flows', 'wfwf', 'x.wf'):
+        w = wfgen.clone(P['depth2'][0])
+        w['workbook'] = wbname
+        P['workbook_name_%s' % wbname.replace('.', '_dot_')] = (
+            w, {'wf': '%s.wf' % wbname, 'workbook': True})
     # the child's name is the value of an expression
     ex = wfgen.clone(P['by_name'][0])
     ex['input'] = {'child': 'sub'}
